@@ -11,7 +11,7 @@
 (***************************************************************************)
 EXTENDS Pyxis, Props, Json
 
-CONSTANTS NB0, Variants, WithB1, B1Vft, Clash, DDs, DDVft, Ptrs, Split
+CONSTANTS NB0, Variants, WithB1, B1Vft, Clash, DDs, DDVft, Ptrs, Split, Lead, EmptyBlocks
 
 Leaf(n) == Field(n, "pub", <<>>, TCPtr(TNm("u8")), None, FALSE)
 BaseF(n, t) == Field(n, "pub", <<>>, TNm(t), None, TRUE)
@@ -40,6 +40,7 @@ DBlock(nb0, v, k) ==
        [] v = "same"  -> Vft(None, base)
        [] v = "ext"   -> Vft(None, Append(base, G))
        [] v = "extm0" -> Vft(None, Append(base, Func("m0", "priv", <<>>, <<ArgM>>, TNone, None, None, "")))
+       [] v = "emptyblk" -> Vft(None, <<>>)
        [] v = "trunc" -> Vft(None, SubSeq(base, 1, nb0 - 1))
        [] v = "swap"  -> Vft(None, IF nb0 = 2 THEN <<F2, F1>> ELSE base)
        [] OTHER -> Vft(None, [i \in DOMAIN base |-> IF i = k THEN Mutate(base[i], v) ELSE base[i]] \o <<G>>)
@@ -48,10 +49,10 @@ M0(extra) == Func("m0", "pub", <<" m0 doc">>, <<ArgC>> \o extra, TNm("u32"), 262
 P0 == Func("p0", "priv", <<>>, <<ArgM>>, TNone, 327680, None, "")
 MD == Func("md", "pub", <<>>, <<ArgM, Arg("v", TNm("i64"))>>, TNone, 393216, None, "fastcall")
 
-MkInput(ptr, nb0, v, k, b1, b1v, clash, dd, ddv, split) ==
-  LET B0 == [TypeDef("B0", "pub", <<Leaf("x0")>>) EXCEPT !.vft = IF nb0 > 0 THEN Vft(None, BaseFuncs(nb0)) ELSE NoVft]
+MkInput(ptr, nb0, v, k, b1, b1v, clash, dd, ddv, split, lead, eb) ==
+  LET B0 == [TypeDef("B0", "pub", <<Leaf("x0")>>) EXCEPT !.vft = IF nb0 > 0 \/ eb THEN Vft(None, BaseFuncs(nb0)) ELSE NoVft]
       B1 == [TypeDef("B1", "pub", <<Leaf("x1")>>) EXCEPT !.vft = IF b1v THEN Vft(None, <<H1>>) ELSE NoVft]
-      D == [TypeDef("D", "pub", <<BaseF("b0", "B0")>> \o (IF b1 THEN <<BaseF("b1", "B1")>> ELSE <<>>) \o <<Leaf("xd")>>)
+      D == [TypeDef("D", "pub", (IF lead THEN <<Leaf("tag")>> ELSE <<>>) \o <<BaseF("b0", "B0")>> \o (IF b1 THEN <<BaseF("b1", "B1")>> ELSE <<>>) \o <<Leaf("xd")>>)
               EXCEPT !.vft = DBlock(nb0, v, k)]
       DD == [TypeDef("DD", "pub", <<BaseF("d", "D")>> \o (IF dd = "diamond" THEN <<BaseF("e", "B0")>> ELSE <<>>) \o <<Leaf("y")>>)
                EXCEPT !.vft = IF ddv THEN D.vft ELSE NoVft]
@@ -71,14 +72,16 @@ MkInput(ptr, nb0, v, k, b1, b1v, clash, dd, ddv, split) ==
 
 MCInit ==
   /\ \E ptr \in Ptrs, nb0 \in NB0, v \in Variants, k \in 1..2, b1 \in WithB1, b1v \in B1Vft,
-        clash \in Clash, dd \in DDs, ddv \in DDVft, split \in Split :
+        clash \in Clash, dd \in DDs, ddv \in DDVft, split \in Split, lead \in Lead, eb \in EmptyBlocks :
         /\ k <= Max(nb0, 1)
-        /\ (v \in {"none", "same", "ext", "extm0", "trunc", "swap"} => k = 1)
-        /\ (nb0 = 0 => v \in {"none", "ext", "extm0"})
+        /\ (v \in {"none", "same", "ext", "extm0", "emptyblk", "trunc", "swap"} => k = 1)
+        /\ (nb0 = 0 => v \in {"none", "ext", "extm0", "emptyblk"})
         /\ (v = "trunc" => nb0 = 2) /\ (v = "swap" => nb0 = 2)
         /\ (~b1 => ~b1v)
         /\ (dd = "none" => ~ddv)
-        /\ input = MkInput(ptr, nb0, v, k, b1, b1v, clash, dd, ddv, split)
+        /\ (eb => nb0 = 0)
+        /\ (lead => (dd = "none" /\ clash = "no" /\ ~b1v))
+        /\ input = MkInput(ptr, nb0, v, k, b1, b1v, clash, dd, ddv, split, lead, eb)
   /\ InitRest
 
 MCSpec == MCInit /\ [][Next]_vars /\ WF_vars(Next)
